@@ -1,0 +1,61 @@
+//go:build verif
+
+// Contracts (machine-checked by /verif/govc) for the generator side of package builder.
+// Comment-only file; see builder/verif_contracts_runtime.go for the conventions.
+
+package builder
+
+// ======================================================================================
+// Unicode classes (C04, C13)
+// ======================================================================================
+
+// ClassKnown: the class name resolves in the standard tables (what the front-end accepts is checked
+// against this by the C04 check).
+//@ pred ClassKnown(class string) bool = has(unicode.Categories, class) || has(unicode.Properties, class) || has(unicode.Scripts, class)
+//@ spec func rtOf(class string) *unicode.RangeTable
+
+//@ func rangeTable(class string) (rt *unicode.RangeTable)
+//@   pure
+//@   panics [unknown-class C04 C13] !ClassKnown(class)
+//@   ensures [known C04 C13] ClassKnown(class)
+//@   ensures [table C15] rt == RtOf(class)
+//@   safety C13
+// RtOf: the table the lookup yields, in the lookup order of the runtime
+//@ pred RtOf(class string) *unicode.RangeTable = ite(has(unicode.Categories, class), unicode.Categories[class], ite(has(unicode.Properties, class), unicode.Properties[class], unicode.Scripts[class]))
+
+// ======================================================================================
+// -optimize-basic-latin (C15): the table equals the general matching procedure on Basic Latin
+// ======================================================================================
+
+// low: what writeCharClassMatcher emits for the slow-path fields (lower-cased iff ignoreCase);
+// fold: what parseCharClassMatcher applies to the input rune.
+//@ pred low(ic bool, r rune) rune = ite(ic, toLower(r), r)
+// GenHit: decision of the general matching procedure for input rune r.
+//@ pred GenHit(chars []rune, ranges []rune, classes []string, ic bool, r rune) bool =
+//@   | (exists k int :: 0 <= k && k < len(chars) && low(ic, chars[k]) == low(ic, r))
+//@   | || (exists k int :: 0 <= k && 2*k + 1 < len(ranges) && low(ic, ranges[2*k]) <= low(ic, r) && low(ic, r) <= low(ic, ranges[2*k+1]))
+//@   | || (exists k int :: 0 <= k && k < len(classes) && uniIs(RtOf(classes[k]), low(ic, r)))
+
+//@ func BasicLatinLookup(chars []rune, ranges []rune, unicodeClasses []string, ignoreCase bool) (basicLatinChars [128]bool)
+//@   requires [runes] (forall k int :: 0 <= k && k < len(chars) ==> chars[k] >= 0) && (forall k int :: 0 <= k && k < len(ranges) ==> ranges[k] >= 0)
+//@   requires [pairs] len(ranges) % 2 == 0
+//@   requires [classes] forall k int :: 0 <= k && k < len(unicodeClasses) ==> ClassKnown(unicodeClasses[k])
+//@   pure
+//@   ensures [ic-chars C15] (ignoreCase ==> forall k int :: 0 <= k && k < len(chars) && chars[k] < 128 ==> basicLatinChars[chars[k]] && basicLatinChars[toLower(chars[k])] && basicLatinChars[toUpper(chars[k])])
+//@   ensures [ic-ranges C15] (ignoreCase ==> forall k int, m rune :: 0 <= k && 2*k < len(ranges) && ranges[2*k] <= m && m <= ranges[2*k+1] && m < 128 ==> basicLatinChars[m] && basicLatinChars[toLower(m)] && basicLatinChars[toUpper(m)])
+//@   ensures [table=general C15] forall r rune :: 0 <= r && r < 128 ==> basicLatinChars[r] == GenHit(chars, ranges, unicodeClasses, ignoreCase, r)
+//@   loop#1 invariant [chars C15] !ignoreCase ==> forall r rune :: 0 <= r && r < 128 ==> basicLatinChars[r] == (exists k int :: 0 <= k && k < idx && chars[k] == r)
+//@   loop#1 invariant [ic-chars C15] (ignoreCase ==> forall k int :: 0 <= k && k < idx && chars[k] < 128 ==> basicLatinChars[chars[k]] && basicLatinChars[toLower(chars[k])] && basicLatinChars[toUpper(chars[k])])
+//@   loop#2 invariant [ic C15] (ignoreCase ==> forall k int :: 0 <= k && k < len(chars) && chars[k] < 128 ==> basicLatinChars[chars[k]] && basicLatinChars[toLower(chars[k])] && basicLatinChars[toUpper(chars[k])]) && (ignoreCase ==> forall k int, m rune :: 0 <= k && 2*k < i && ranges[2*k] <= m && m <= ranges[2*k+1] && m < 128 ==> basicLatinChars[m] && basicLatinChars[toLower(m)] && basicLatinChars[toUpper(m)])
+//@   loop#2 invariant [ranges C15] i % 2 == 0 && 0 <= i && i <= len(ranges) && (!ignoreCase ==> forall r rune :: 0 <= r && r < 128 ==> basicLatinChars[r] ==
+//@     | ((exists k int :: 0 <= k && k < len(chars) && chars[k] == r) || (exists k int :: 0 <= k && 2*k < i && ranges[2*k] <= r && r <= ranges[2*k+1])))
+//@   loop#3 invariant [ic C15] (ignoreCase ==> forall k int :: 0 <= k && k < len(chars) && chars[k] < 128 ==> basicLatinChars[chars[k]] && basicLatinChars[toLower(chars[k])] && basicLatinChars[toUpper(chars[k])]) && (ignoreCase ==> forall k int, m rune :: 0 <= k && 2*k < i && ranges[2*k] <= m && m <= ranges[2*k+1] && m < 128 ==> basicLatinChars[m] && basicLatinChars[toLower(m)] && basicLatinChars[toUpper(m)]) && (ignoreCase ==> forall m rune :: ranges[i] <= m && m < j && m <= ranges[i+1] && m < 128 ==> basicLatinChars[m] && basicLatinChars[toLower(m)] && basicLatinChars[toUpper(m)])
+//@   loop#3 invariant [range-inner C15] i % 2 == 0 && 0 <= i && i + 1 < len(ranges) && j >= ranges[i] && j >= 0 && (!ignoreCase ==> forall r rune :: 0 <= r && r < 128 ==> basicLatinChars[r] ==
+//@     | ((exists k int :: 0 <= k && k < len(chars) && chars[k] == r) || (exists k int :: 0 <= k && 2*k < i && ranges[2*k] <= r && r <= ranges[2*k+1]) || (ranges[i] <= r && r < j && r <= ranges[i+1])))
+//@   loop#4 invariant [ic C15] (ignoreCase ==> forall k int :: 0 <= k && k < len(chars) && chars[k] < 128 ==> basicLatinChars[chars[k]] && basicLatinChars[toLower(chars[k])] && basicLatinChars[toUpper(chars[k])]) && (ignoreCase ==> forall k int, m rune :: 0 <= k && 2*k < len(ranges) && ranges[2*k] <= m && m <= ranges[2*k+1] && m < 128 ==> basicLatinChars[m] && basicLatinChars[toLower(m)] && basicLatinChars[toUpper(m)])
+//@   loop#4 invariant [classes C15] !ignoreCase ==> forall r rune :: 0 <= r && r < 128 ==> basicLatinChars[r] ==
+//@     | ((exists k int :: 0 <= k && k < len(chars) && chars[k] == r) || (exists k int :: 0 <= k && 2*k + 1 < len(ranges) && ranges[2*k] <= r && r <= ranges[2*k+1]) || (exists k int :: 0 <= k && k < idx && uniIs(RtOf(unicodeClasses[k]), r)))
+//@   loop#5 invariant [ic C15] (ignoreCase ==> forall k int :: 0 <= k && k < len(chars) && chars[k] < 128 ==> basicLatinChars[chars[k]] && basicLatinChars[toLower(chars[k])] && basicLatinChars[toUpper(chars[k])]) && (ignoreCase ==> forall k int, m rune :: 0 <= k && 2*k < len(ranges) && ranges[2*k] <= m && m <= ranges[2*k+1] && m < 128 ==> basicLatinChars[m] && basicLatinChars[toLower(m)] && basicLatinChars[toUpper(m)])
+//@   loop#5 invariant [class-inner C15] 0 <= r && rt == RtOf(cl) && (!ignoreCase ==> forall q rune :: 0 <= q && q < 128 ==> basicLatinChars[q] ==
+//@     | ((exists k int :: 0 <= k && k < len(chars) && chars[k] == q) || (exists k int :: 0 <= k && 2*k + 1 < len(ranges) && ranges[2*k] <= q && q <= ranges[2*k+1]) || (exists k int :: 0 <= k && k < idx4 && uniIs(RtOf(unicodeClasses[k]), q)) || (q < r && uniIs(rt, q))))
+//@   safety C13 C15
